@@ -278,6 +278,82 @@ func renamedFunc(m *Module, p *packages.Package, name string) *FuncInfo {
 		renamedNote.Store(p.PkgPath+"."+name, cand[0].Name)
 		return cand[0]
 	}
+	if len(cand) == 0 {
+		if f := movedFunc(p, name, want, fs, names); f != nil {
+			renamedNote.Store(p.PkgPath+"."+name, f.Name)
+			return f
+		}
+	}
+	return nil
+}
+
+// movedFunc: the anchor method went with its state to another type (same parameters and results, another receiver) or became
+// a package-level function that takes the former receiver as its first parameter (or the reverse). Only functions whose
+// names did not exist on the pinned tree are candidates, and the match must be unique.
+func movedFunc(p *packages.Package, name, want string, fs map[string]*FuncInfo, names []string) *FuncInfo {
+	tab := loadAnchors()
+	pinned := map[string]bool{}
+	for _, n := range tab.AllFuncs[p.PkgPath] {
+		pinned[n] = true
+	}
+	if len(pinned) == 0 {
+		return nil
+	}
+	core, recvT := want, ""
+	if strings.HasPrefix(want, "recv ") {
+		rest := strings.TrimPrefix(want, "recv ")
+		i := strings.Index(rest, " func(")
+		if i < 0 {
+			return nil
+		}
+		recvT, core = rest[:i], rest[i+1:]
+	}
+	coreOf := func(s string) (string, string) {
+		if strings.HasPrefix(s, "recv ") {
+			rest := strings.TrimPrefix(s, "recv ")
+			if i := strings.Index(rest, " func("); i >= 0 {
+				return rest[i+1:], rest[:i]
+			}
+		}
+		return s, ""
+	}
+	withFirst := func(coreSig, first string) string {
+		// func(P) (R)  →  func(first, P) (R)
+		if strings.HasPrefix(coreSig, "func()") {
+			return "func(" + first + ")" + strings.TrimPrefix(coreSig, "func()")
+		}
+		return "func(" + first + ", " + strings.TrimPrefix(coreSig, "func(")
+	}
+	var cand []*FuncInfo
+	for _, n := range names {
+		f := fs[n]
+		if f.Obj == nil || pinned[n] {
+			continue
+		}
+		c2, r2 := coreOf(sigStr(f.Obj))
+		switch {
+		case recvT != "" && r2 != "" && c2 == core:
+			cand = append(cand, f) // method moved to another receiver
+		case recvT != "" && r2 == "" && c2 == withFirst(core, recvT):
+			cand = append(cand, f) // method became a function of its former receiver
+		case recvT == "" && r2 != "" && core == withFirst(c2, r2):
+			cand = append(cand, f) // function became a method of its former first parameter
+		}
+	}
+	if len(cand) > 1 {
+		if fp, ok := tab.Bodies[p.PkgPath+"|"+name]; ok {
+			var same []*FuncInfo
+			for _, f := range cand {
+				if bodyPrint(f) == fp {
+					same = append(same, f)
+				}
+			}
+			cand = same
+		}
+	}
+	if len(cand) == 1 {
+		return cand[0]
+	}
 	return nil
 }
 
